@@ -86,6 +86,9 @@ def gen_life(rng, opts=None):
     clock, klass = gen.rand_instant(rng)
     scn = {"tz": tz, "max_exec": opts.get("max_exec", 0), "prio": opts.get("prio", 0), "clock0": clock, "ops": [], "_class": klass}
     njobs = rng.randint(1, opts.get("max_jobs", 3))
+    if njobs >= 2 and rng.random() < opts.get("p_maxexec", 0.0):
+        # an execution limit: due jobs that are passed over must keep their due time and be worked off by later calls
+        scn["max_exec"] = rng.choice([1, 1, 2])
     periods = []
     for i in range(njobs):
         o, p = gen_job(rng, tz, clock, opts)
